@@ -5,7 +5,7 @@ sys.path.insert(0, os.path.dirname(os.path.abspath(__file__)))
 import common, topofam
 from symbols import coq_val
 
-KIND = {"pipe": "TPipe", "sink": "TSink", "zip": "TZip", "combine": "TCombine"}
+KIND = {"pipe": "TPipe", "sink": "TSink", "zip": "TZip", "combine": "TCombine", "rsink": "TRSink"}
 
 
 def nl(l):
@@ -26,6 +26,10 @@ def coq_op(op):
         return "ODestroy %d" % op[1]
     if k == "drop":
         return "ODrop %d" % op[1]
+    if k == "remit":
+        ed = op[4]
+        e = {"connect": "EConnect %d %d", "disconnect": "EDisconnect %d %d", "destroy": "EDestroy %d"}[ed[0]] % tuple(ed[1:])
+        return "ORemit %d %s %d (%s)" % (op[1], coq_val(op[2]), op[3], e)
     raise KeyError(k)
 
 
@@ -192,9 +196,106 @@ def gen_reentrant(rng):
     return {"ops": ops}
 
 
+def gen_reentrant2(rng):
+    """re-entrant edits on a random small graph (every node stays referenced): pipes, sinks, zips, combine_latest nodes
+    and one or two reactive sinks anywhere; data before; then emissions during which a reactive sink connects /
+    disconnects / destroys ANY part of the graph (an edge of a loop that is running, of one that has finished, of one
+    that has not started yet; an input of a combining node with or without backlog), each followed by plain emits.
+    Edits of a later round only involve nodes whose links are certainly unchanged by the earlier ones."""
+    ops, kinds, ups = [], [], {}
+
+    def new(kind, u):
+        ops.append(["new", kind, list(u)])
+        kinds.append(kind)
+        ups[len(kinds) - 1] = list(u)
+        return len(kinds) - 1
+
+    def paths(extra=None):
+        cnt, worst = {}, 1
+        for i in range(len(kinds)):
+            u = list(ups[i]) + ([extra[0]] if extra and extra[1] == i else [])
+            cnt[i] = max(1, sum(cnt.get(a, 1) for a in u))
+            worst = max(worst, cnt[i])
+        return worst
+    nsrc = rng.choice([1, 1, 2, 2, 3])
+    for _ in range(nsrc):
+        new("pipe", [])
+    n_nodes = rng.randint(4, 9)
+    n_rs = 0
+    while len(kinds) < nsrc + n_nodes:
+        non_sinks = [i for i in range(len(kinds)) if kinds[i] not in ("sink", "rsink")]
+        kind = rng.choice(["pipe", "pipe", "pipe", "sink", "sink", "zip", "combine", "rsink"])
+        if kind == "rsink" and n_rs >= 2:
+            kind = "sink"
+        if kind in ("sink", "rsink"):
+            new(kind, [rng.choice(non_sinks)])
+            n_rs += kind == "rsink"
+        else:
+            k = rng.choice([1, 1, 2]) if kind == "pipe" else rng.choice([1, 2, 2, 3])
+            new(kind, rng.sample(non_sinks, min(k, len(non_sinks))))
+            if paths() > 16:
+                ops.pop(); kinds.pop(); del ups[len(kinds)]
+    if n_rs == 0:
+        new("rsink", [rng.choice([i for i in range(len(kinds)) if kinds[i] not in ("sink", "rsink")])])
+    rsinks = [i for i in range(len(kinds)) if kinds[i] == "rsink"]
+    emitters = [i for i in range(len(kinds)) if kinds[i] not in ("sink", "rsink")]
+    srcs = list(range(nsrc))
+    v = 0
+    for _ in range(rng.choice([0, 1, 2, 4])):
+        v += 1
+        ops.append(["emit", rng.choice(srcs), v])
+    touched = set()
+    for _round in range(rng.choice([1, 1, 2, 3])):
+        free = [i for i in range(len(kinds)) if i not in touched]
+        cands = []
+        for d in free:
+            for u in ups[d]:
+                if u in free:
+                    cands.append(["disconnect", u, d])
+        for d in free:
+            for u in free:
+                if u < d and kinds[u] not in ("sink", "rsink") and u not in ups[d] and kinds[d] != "pipe" or \
+                        (u < d and kinds[u] not in ("sink", "rsink") and u not in ups[d] and paths((u, d)) <= 16):
+                    if paths((u, d)) <= 16:
+                        cands.append(["connect", u, d])
+        for m in free:
+            if all(u in free for u in ups[m]):
+                cands.append(["destroy", m])
+        if not cands:
+            break
+        want = rng.choice(["disconnect", "disconnect", "connect", "destroy"])
+        pool = [c for c in cands if c[0] == want] or cands
+        ed = rng.choice(pool)
+        t = rng.choice(rsinks)
+        # emit at a node from which the reactive sink is reachable (mostly), so that the edit usually happens
+        anc, todo = set(), [t]
+        while todo:
+            a = todo.pop()
+            for u in ups[a]:
+                if u not in anc:
+                    anc.add(u)
+                    todo.append(u)
+        start = [i for i in emitters if i in anc] if rng.random() < 0.85 else emitters
+        n = rng.choice(start or emitters)
+        v += 1
+        ops.append(["remit", n, v, t, ed])
+        # the generator does not know whether the reactive sink was reached: from now on the links of the nodes the
+        # edit involves count as unknown
+        if ed[0] == "destroy":
+            touched.add(ed[1]); touched.update(ups[ed[1]])
+        else:
+            touched.add(ed[1]); touched.add(ed[2])
+        for _ in range(rng.choice([1, 2, 3])):
+            v += 1
+            ops.append(["emit", rng.choice(srcs if rng.random() < 0.7 else emitters), v])
+    return {"ops": ops}
+
+
 def gen(rng, tier):
     if rng.random() < 0.12:
         return gen_reentrant(rng)
+    if rng.random() < 0.12:
+        return gen_reentrant2(rng)
     if rng.random() < 0.2:
         return gen_backlog(rng)
     if rng.random() < 0.1:
